@@ -17,7 +17,7 @@ import (
 // Lock-step: every frame is sent after the reply to the previous one arrived.  Valid frames name
 // unbound fids (answered EBADF), so every expected reply is an Rlerror with the frame's tag.
 func runK2srv(r *rng, n int) {
-	for i := 0; i < n; i++ {
+	for i := 0; i < n && !tooManyHangs(); i++ {
 		msize := []uint32{4096, 8192, 65536}[r.intn(3)]
 		peer := newServerPeer(p9.NewServer(nullAttacher{}))
 		peer.write(rawFrame(100, 0xffff, cat(le32(msize), str9([]byte("9P2000.L.Google.7")))))
@@ -97,6 +97,8 @@ func runK2srv(r *rng, n int) {
 			}
 			if peer.waitDone(8 * time.Second) {
 				ended = 1
+			} else {
+				noteHang() // a server that does not end the connection is left behind, possibly spinning: stop after a few
 			}
 			// whatever the server still wrote
 			for {
